@@ -144,6 +144,105 @@ pub fn step(ex: &mut Exec, st: &mut L1State, op: &str, toks: &[&str]) -> Option<
                 Ok(Some(Ok(()))) => "acc".into(),
             })
         }
+        // oracle-only: the HONEST proof -> message -> bytes -> message -> proof is the identical value, and
+        // verifying the decoded proof gives the same result as verifying the original
+        "o.pb.rt.lookup" | "o.pb.rt.history" if toks.len() == 2 => {
+            let inst = st.inst.as_ref()?;
+            let u = AkdLabel(parse_hex(toks[1])?);
+            if op == "o.pb.rt.lookup" {
+                let Some((p, ep, root)) = st.rt.block_on(inst.lookup(&u)) else { return Some("none".into()) };
+                let r = std::panic::catch_unwind(std::panic::AssertUnwindSafe(|| {
+                    let b = pb::LookupProof::from(&p).write_to_bytes().ok()?;
+                    let m = pb::LookupProof::parse_from_bytes(&b).ok()?;
+                    akd::LookupProof::try_from(&m).ok()
+                }));
+                Some(match r {
+                    Err(_) => {
+                        ex.fail_tag("C19", "decode-panic", format!("{:?}: encoding/decoding the honest lookup proof panicked", toks));
+                        "panic".into()
+                    }
+                    Ok(None) => {
+                        ex.fail_tag("C19", "honest-proof-undecodable", format!("{:?}: the honest lookup proof of epoch {ep} does not decode from its own encoding", toks));
+                        "undecodable".into()
+                    }
+                    Ok(Some(q)) => {
+                        if q != p {
+                            ex.fail_tag("C19", "roundtrip-differs", format!("{:?}: the honest lookup proof of epoch {ep} decodes to a DIFFERENT value than was encoded", toks));
+                        }
+                        let a = inst.verify_lookup(root, ep, &u, p).ok();
+                        let b = inst.verify_lookup(root, ep, &u, q).ok();
+                        if a != b {
+                            ex.fail_tag("C19", "decoded-verifies-differently", format!("{:?}: the original lookup proof verifies to {:?}, the decoded one to {:?}", toks, a.as_ref().map(crate::exec_l1::show_result), b.as_ref().map(crate::exec_l1::show_result)));
+                        }
+                        ex.stats.bump(op, "ok");
+                        "ok".into()
+                    }
+                })
+            } else {
+                let Some((p, ep, root)) = st.rt.block_on(inst.history(&u, HistoryParams::Complete)) else { return Some("none".into()) };
+                let params = HistoryVerificationParams::Default { history_params: HistoryParams::Complete };
+                let r = std::panic::catch_unwind(std::panic::AssertUnwindSafe(|| {
+                    let b = pb::HistoryProof::from(&p).write_to_bytes().ok()?;
+                    let m = pb::HistoryProof::parse_from_bytes(&b).ok()?;
+                    akd::HistoryProof::try_from(&m).ok()
+                }));
+                Some(match r {
+                    Err(_) => {
+                        ex.fail_tag("C19", "decode-panic", format!("{:?}: encoding/decoding the honest history proof panicked", toks));
+                        "panic".into()
+                    }
+                    Ok(None) => {
+                        ex.fail_tag("C19", "honest-proof-undecodable", format!("{:?}: the honest history proof of epoch {ep} does not decode from its own encoding", toks));
+                        "undecodable".into()
+                    }
+                    Ok(Some(q)) => {
+                        if q != p {
+                            ex.fail_tag("C19", "roundtrip-differs", format!("{:?}: the honest history proof of epoch {ep} decodes to a DIFFERENT value than was encoded", toks));
+                        }
+                        let a = inst.verify_history(root, ep, &u, p, params).ok();
+                        let b = inst.verify_history(root, ep, &u, q, params).ok();
+                        if a != b {
+                            ex.fail_tag("C19", "decoded-verifies-differently", format!("{:?}: the original history proof verifies to {} entries, the decoded one to {}", toks, a.map(|v| v.len() as i64).unwrap_or(-1), b.map(|v| v.len() as i64).unwrap_or(-1)));
+                        }
+                        ex.stats.bump(op, "ok");
+                        "ok".into()
+                    }
+                })
+            }
+        }
+        "o.pb.rt.audit" if toks.len() == 3 => {
+            let inst = st.inst.as_ref()?;
+            let (s, e): (u64, u64) = (toks[1].parse().ok()?, toks[2].parse().ok()?);
+            let Some(p) = st.rt.block_on(inst.audit(s, e)) else { return Some("none".into()) };
+            let hashes: Vec<[u8; 32]> = (s..=e).filter_map(|i| inst.roots.get(&i).cloned()).collect();
+            let r = std::panic::catch_unwind(std::panic::AssertUnwindSafe(|| {
+                let b = pb::AppendOnlyProof::from(&p).write_to_bytes().ok()?;
+                let m = pb::AppendOnlyProof::parse_from_bytes(&b).ok()?;
+                akd::AppendOnlyProof::try_from(&m).ok()
+            }));
+            Some(match r {
+                Err(_) => {
+                    ex.fail_tag("C19", "decode-panic", format!("{:?}: encoding/decoding the honest audit proof panicked", toks));
+                    "panic".into()
+                }
+                Ok(None) => {
+                    ex.fail_tag("C19", "honest-proof-undecodable", format!("{:?}: the honest audit proof does not decode from its own encoding", toks));
+                    "undecodable".into()
+                }
+                Ok(Some(q)) => {
+                    if q != p {
+                        ex.fail_tag("C19", "roundtrip-differs", format!("{:?}: the honest audit proof decodes to a DIFFERENT value than was encoded", toks));
+                    }
+                    let a = st.rt.block_on(inst.verify_audit(hashes.clone(), p)).is_ok();
+                    let b = st.rt.block_on(inst.verify_audit(hashes, q)).is_ok();
+                    if a != b {
+                        ex.fail_tag("C19", "decoded-verifies-differently", format!("{:?}: the original audit proof verifies: {a}, the decoded one: {b}", toks));
+                    }
+                    ex.stats.bump(op, "ok");
+                    "ok".into()
+                }
+            })
+        }
         // blob names of published audit proofs (local_auditing.rs)
         "pb.blobname" if toks.len() == 2 => {
             use akd::local_auditing::AuditBlobName;
